@@ -1,6 +1,7 @@
 // In-process UCI rig: Uci::loop() on a reader thread with std::cin / std::cout replaced by harness-owned stream buffers.
 #pragma once
 #include "uci.h"
+#include "scrub.h"
 
 #include <atomic>
 #include <condition_variable>
@@ -128,8 +129,12 @@ struct Rig
     {
         std::cin.rdbuf(&in);
         std::cout.rdbuf(&out);
+        scrub::scrub_stack();
         uci = new Uci();
-        reader = std::thread([this] { uci->loop(); });
+        reader = std::thread([this] {
+            scrub::scrub_stack();
+            uci->loop();
+        });
         reader.detach();
     }
     void send(const std::string& line) { in.push(line + "\n"); }
